@@ -8,6 +8,11 @@ the s-expression texts of BUILDING.md / Driver/Pyvalue.lean:
 
   Py:    none | (pb 0|1) | (pi <int>) | (pf <key>) | pnan | pinf | pninf | (ps <hex>|-) | (pl …)
          | other | (other tuple|dict|bytes|set|object)
+         | (sub <how> <py>)   an instance of a SUBCLASS of the built-in type of <py>, same value:
+                              strsub `class Tag(str)`, strmixin member of `class E(str, Enum)`,
+                              strenum member of an `enum.StrEnum`, intsub `class N(int)`, intenum
+                              member of an `enum.IntEnum`, floatsub `class F(float)`, listsub
+                              `class L(list)`; and `tuple` = the tuple with the elements of a (pl …)
   Value: n | (i <int>) | (u <nat>) | (f <key>) | (s <hex>|-) | (b 0|1) | (e <hex>) | (l …)
 
 Operations:
@@ -20,7 +25,7 @@ Operations:
   {"op":"to","query":Q}       Q has a literal edge parameter `x`; the Python adapter reports the
                               object it received (Rust -> Py)  ->  {"ok":P} | {"err":…}
   {"op":"query","schema":"numbers"|"kinds","query":Q,"args":{name:P},"items":[{field:V}],
-   "limit":N}                 execute_query over the Python mirror adapter
+   "limit":N,"wrap_subclasses":bool}                 execute_query over the Python mirror adapter
                               ->  {"rows":[row text]} | {"err":class,"kind":kind,"msg":…}
 """
 import json
@@ -84,6 +89,70 @@ def float_from_key(k):
     return struct.unpack("<d", struct.pack("<Q", bits))[0]
 
 
+import enum  # noqa: E402
+
+
+class Tag(str):
+    pass
+
+
+class N(int):
+    pass
+
+
+class F(float):
+    pass
+
+
+class L(list):
+    pass
+
+
+def make_sub(how, base):
+    """an instance of a subclass of type(base) carrying the same value"""
+    if how == "strsub":
+        assert type(base) is str
+        return Tag(base)
+    if how == "strmixin":
+        assert type(base) is str
+        return enum.Enum("StrMixin", {"MEMBER": base}, type=str).MEMBER
+    if how == "strenum":
+        assert type(base) is str
+        if hasattr(enum, "StrEnum"):
+            return enum.StrEnum("StrE", {"MEMBER": base}).MEMBER
+        return Tag(base)
+    if how == "intsub":
+        assert type(base) is int
+        return N(base)
+    if how == "intenum":
+        assert type(base) is int
+        return enum.IntEnum("IntE", {"MEMBER": base}).MEMBER
+    if how == "floatsub":
+        assert type(base) is float
+        return F(base)
+    if how == "listsub":
+        assert type(base) is list
+        return L(base)
+    if how == "tuple":
+        assert type(base) is list
+        return tuple(base)
+    raise ValueError(f"bad subclass kind {how}")
+
+
+def wrap_subclasses(o):
+    """the same data with every str/int/float/list replaced by a subclass instance (bool, None kept)"""
+    t = type(o)
+    if t is str:
+        return Tag(o)
+    if t is int:
+        return N(o)
+    if t is float:
+        return F(o)
+    if t is list:
+        return L([wrap_subclasses(x) for x in o])
+    return o
+
+
 class Unsupported:
     """an object with none of __index__/__float__ (model: `Py.other`)"""
 
@@ -114,6 +183,8 @@ def py_of_sexp(s):
         return unhex(s[1]).decode("utf-8")
     if h == "pl":
         return [py_of_sexp(x) for x in s[1:]]
+    if h == "sub":
+        return make_sub(s[1], py_of_sexp(s[2]))
     if h == "other":
         return {"tuple": (1, 2), "dict": {"a": 1}, "bytes": b"ab", "set": {1}, "object": Unsupported()}[s[1]]
     raise ValueError(f"bad py sexp {s}")
@@ -526,7 +597,11 @@ def op_query(req):
     if req["schema"] == "numbers":
         ad = NumbersMirror()
     else:
-        ad = KindsMirror([{f: py_of_value_sexp(parse_sexp(v)) for f, v in it.items()} for it in req.get("items", [])])
+        items = [{f: py_of_value_sexp(parse_sexp(v)) for f, v in it.items()} for it in req.get("items", [])]
+        if req.get("wrap_subclasses"):
+            # the adapter hands out subclass instances (str/int/float/list subclasses) as property values
+            items = [{f: wrap_subclasses(v) for f, v in it.items()} for it in items]
+        ad = KindsMirror(items)
     limit = req.get("limit", 5000)
     rows = []
     try:
